@@ -66,7 +66,7 @@ def _run_conductor(study, batch, calls):
         cmod.sleep = saved
 
 
-def _run_cli(spec, root, batch, opts, dry):
+def _run_cli(spec, root, batch, opts, dry, extra=None):
     """the same through the real command: `maestro run -fg -y [--dry] ...` (maestrowf.maestro.main())"""
     import contextlib
     import io
@@ -107,6 +107,7 @@ def _run_cli(spec, root, batch, opts, dry):
         args.append("--usetmp")
     if dry:
         args.append("--dry")
+    args += list(extra or [])
     saved_sleep, argv = cmod.sleep, sys.argv
     root_logger = logging.getLogger()
     handlers = list(root_logger.handlers)
